@@ -1,7 +1,7 @@
 (* Model/ParseShow.v — canonical one-line observations of the Parse model and of the
    reference decoder (shared by the dispatch modules D01, D02, D16), and the decidable
    classifiers of the recorded defect classes. *)
-From PV Require Export Base.Text Base.Slice Model.Parse Spec.RFC.
+From PV Require Export Base.Text Base.Slice Model.Parse Model.ParseFixes Spec.RFC.
 Open Scope string_scope.
 Open Scope N_scope.
 
@@ -69,7 +69,7 @@ Definition obs_panics (c : cfg) (s : slice) : bool :=
 (* cfg from four tokens: host MAC, router MAC, LAN address, prefix bits *)
 Definition cfg_of_toks (hm rm lan bits : string) : option cfg :=
   match bytes_of_tok hm, bytes_of_tok rm, bytes_of_tok lan, N_of_dec bits with
-  | Some a, Some b, Some l, Some n => Some (mkCfg a b l n)
+  | Some a, Some b, Some l, Some n => Some (mkCfg a b l n current_fixes)
   | _, _, _, _ => None
   end.
 
